@@ -70,7 +70,10 @@ def run(tier="quick", seed=0):
                                      "inputs": {"source": s3, "destination": d3, "width": w, "height": h}, "got": v, "want_hops": d})
                     # walk the vector
                     start = ((s3[0] - s3[2]) % w, (s3[1] - s3[2]) % h)
-                    path = longest_dimension_first(v, start, w, h)
+                    # (the vector arrives in rotating forms: tuple, list, one-shot iterator, generator - it is iterated, not indexed)
+                    vform = ev % 4
+                    vgiven = v if vform == 0 else list(v) if vform == 1 else iter(v) if vform == 2 else (c for c in v)
+                    path = longest_dimension_first(vgiven, start, w, h)
                     cur = start
                     okp = len(path) == hops
                     for direction, pos in path:
